@@ -207,9 +207,20 @@ Record wstat := {
   ws_sum : Qc; ws_m1 : Qc; ws_m2 : Qc; ws_m3 : Qc; ws_m4 : Qc;      (* sum, raw moments E[x^k] *)
   ws_mu2 : Qc; ws_mu3 : Qc; ws_mu4 : Qc                            (* central moments *)
 }.
+(* the same central moments / sums of deviations with the mean bound once (convertible to mu2, mu3, mu4, ssd, scd:
+   Proofs/Signal.v *_let_eq by reflexivity); the spec definitions re-evaluate the mean under the binder, which is quadratic
+   when evaluated *)
+Definition mu2_let (l : list Qc) : Qc := let m := qmean l in qsum (map (fun x => sq (x - m)) l) / qlen l.
+Definition mu3_let (l : list Qc) : Qc := let m := qmean l in qsum (map (fun x => cube (x - m)) l) / qlen l.
+Definition mu4_let (l : list Qc) : Qc := let m := qmean l in qsum (map (fun x => fourth (x - m)) l) / qlen l.
+Definition ssd_let (l : list Qc) : Qc := let m := qmean l in qsum (map (fun x => sq (x - m)) l).
+Definition scd_let (l : list (Qc * Qc)) : Qc :=
+  let mx := qmean (map fst l) in let my := qmean (map snd l) in
+  qsum (map (fun p => (fst p - mx) * (snd p - my)) l).
+
 Definition wstat_of (win : list Qc) : wstat :=
   {| ws_sum := qsum win; ws_m1 := qmean win; ws_m2 := qmean (map sq win); ws_m3 := qmean (map cube win);
-     ws_m4 := qmean (map fourth win); ws_mu2 := mu2 win; ws_mu3 := mu3 win; ws_mu4 := mu4 win |}.
+     ws_m4 := qmean (map fourth win); ws_mu2 := mu2_let win; ws_mu3 := mu3_let win; ws_mu4 := mu4_let win |}.
 Definition wstat0 : wstat := wstat_of [].
 
 Inductive mv_op := OpSum | OpMean | OpVar | OpStd | OpSkew | OpKurt.
@@ -316,7 +327,7 @@ Definition is_nonfinite (v : fval) : bool := is_nan v || is_inf v.
 
 Local Open Scope Q_scope.
 Definition corr_match (n : nat) (y win : list Qc) (r : fval) : bool :=
-  let '(num, dx, dy) := pearson_triple win y in
+  let '(num, dx, dy) := (scd_let (combine win y), ssd_let win, ssd_let y) in       (* = pearson_triple win y *)
   let num := this num in let dx := this dx in let dy := this dy in
   if Qeq_bool dx 0 || Qeq_bool dy 0 then is_nonfinite r          (* undefined: 0/0 or eps/0 in floating point *)
   else match fval_q r with
@@ -339,7 +350,7 @@ Definition dist_match (y win : list Qc) (r : fval) : bool :=
   end.
 
 Definition bcdc_match (n : nat) (y win : list Qc) (r : fval) : bool :=
-  let '(num, den) := bcdc_pair win y in
+  let '(num, den) := (mu2_let (vdiff win y), mu2_let (vsum win y)) in                  (* = bcdc_pair win y *)
   let num := this num in let den := this den in
   if Qeq_bool den 0 then (if Qeq_bool num 0 then is_nan r else match r with PInf => true | _ => false end)
   else match fval_q r with
